@@ -42,6 +42,14 @@ CHECKS = {
    text="Symbolic check of the real equistress functions with numpy.linalg.eigvalsh replaced by its contract: tresca = l3 - l1, max/min principal, absolute maximum principal = eigenvalue of largest magnitude with its sign, signed variants = documented sign (+1 for a zero indicator) times the unsigned value, mises**2 = half the sum of squared principal differences and mises >= 0 (from the component formula under the Vieta relations, sqrt exact), mises <= tresca <= 2/sqrt(3) mises, positive scaling and rotation invariance of mises about each coordinate axis with symbolic (cos, sin), accessor == functions row by row.",
    note="Claimed in part: rotation invariance / scaling of the eigenvalue-based quantities would be inherited from the stub and LAPACK itself is not the subject. Eigenvalue-only clauses use a free ordered spectrum (over-approximation), the Mises/Tresca bounds use the separately decided mises definition as a lemma. 1 row (definitions) / 2 rows (accessor).",
    design="6 C17"),
+ "C04": dict(
+   text="Bounded exhaustive symbolic check of the real FKMNonlinearDetector (first and second HCM pass incl. the junction logic, find_turns, sample tail, recorder) on symbolic integer load sequences against the rainflow cycles of the periodic reversal sequence started at its largest absolute load: multiset of second-pass (loads_min, loads_max) == oracle cycles, every second-pass hysteresis closed, half-counted hystereses only in the first pass and symmetric about zero, and invariance of the second-pass cycles under one inserted non-reversal sample at every position incl. the end/junction.",
+   note="Bound: sequence length 2..4 (quick) / 2..6 (thorough); refinement base length 2..3 / 2..4. Integer loads (tolerance comparisons exact, rewritten to integer arithmetic). Linear stub law (counting depends on loads only). One open known finding (known_findings.json: C04-deferred_reversal_closes_loop) is excluded by its region predicate; the junction defect outside it was repaired in /repo (b090510).",
+   design="6 C04"),
+ "C05": dict(
+   text="Bounded exhaustive symbolic check of the HCM stress-strain bookkeeping of the real FKMNonlinearDetector / FKMNonlinearRecorder against an independent scalar implementation of the HCM case analysis (primary branch, Masing secondary branches from the reversal point, Memory 1-3, running strain extremes, pass numbers): every column of recorder.collective and the visited strain values; multi-point series (non-contiguous node ids, proportional loads) give every point its single-point rows; negated loads mirror all stresses and strains.",
+   note="Bound: 2 and 4 reversals per period (proper reversal sequences incl. start from zero and junction; everything else is C04), 1..3 points with factors 1/2, 2, 3. Notch law = odd extensions of positive increasing uninterpreted functions (contract stub); concrete replays use an analytic law. Integer loads. The oracle was written from the same reading of the guideline as the code. Multi-point running strain extremes are not compared (decided on the first node; equality per node needs Masing/convexity). C04's open finding region is excluded.",
+   design="6 C05"),
 }
 NA = {
  "C06": "subject is convergence/accuracy of scipy Newton/secant iterations on equations with real-exponent powers: no SMT theory for x**y, cos, log or for float iteration convergence; stubbing the power removes the subject",
